@@ -192,7 +192,7 @@ def handle (st : St) (line : String) : St × String :=
   | ["redecl", n, l, t, sup] => ok (do
       let l ← l.toNat?; let t ← parseTypeRef t
       updEntity st fun e => { e with attrs := e.attrs ++ [⟨n, l, t, none, some sup⟩] })
-  | ["entity", n, l] => ok (l.toNat?.map fun l => { st with decls := .entity ⟨n, l, [], [], [], [], []⟩ :: st.decls })
+  | ["entity", n, l] => ok (l.toNat?.map fun l => { st with decls := .entity ⟨n, l, [], [], [], [], [], false⟩ :: st.decls })
   | ["super", n, l] => ok (l.toNat? >>= fun l => updEntity st fun e => { e with supers := e.supers ++ [(n, l)] })
   | ["sub", n] => ok (updEntity st fun e => { e with subs := e.subs ++ [n] })
   | ["attr", n, l, t] => ok (do
